@@ -8,6 +8,24 @@ let suites : (string * (Sexp.t -> Sexp.t -> Verdict.t)) list = [
   "queue", S_queue.run;
   "wire", S_wire.run;
   "wv", S_wire.run;
+  "w_c03", O_c03.run;
+  "w_c04", O_c04.run;
+  "w_c05", O_c05.run;
+  "w_c08", O_c08.run;
+  "w_c12", O_c12.run;
+  "codec", S_codec.run;
+  "cenc", S_codec.run_enc;
+  "ctopic", S_codec.run_topic;
+  "cmsg", S_codec.run_msg;
+  "rsub", S_redis.run_rsub;
+  "runack", S_redis.run_runack;
+  "rqueue", S_redis.run_rqueue;
+  "crash", S_redis.run_crash;
+  "auth", S_auth.run_auth;
+  "authwire", S_auth.run_authwire;
+  "fedq", S_fed.run_fedq;
+  "fedr", S_fed.run_fedr;
+  "w_c01", O_c01.run;
   "lim", S_comp.run_lim;
   "alias", S_comp.run_alias;
   "unack", S_comp.run_unack;
